@@ -480,6 +480,12 @@ def run_keys(ctx, n_fresh, n_seeded, stop_on_failure=False):
             if i == 0:
                 toks += leading_zero_tokens(path, ctx.rng, 1500 if ctx.tier == "quick" else 6000)
             added = check_key(ctx, path, origin, toks)
+            if i == 0 and not added:
+                # key rotation: generate AGAIN at the same path (and once more through another spelling of it) in the same process;
+                # the .pub must belong to the NEW private key
+                for respell in (path, os.path.join(os.path.dirname(path), ".", os.path.basename(path))):
+                    keygen.keygen(respell)
+                    added += check_key(ctx, path, "keygen() again at the same path", make_tokens(ctx.rng)[:1])
             if added and stop_on_failure:
                 break
             if len(rep.prop_failures) > 20:
